@@ -245,6 +245,13 @@ func (d *Driver) judgeC01() {
 						if a.WasLeaderAtInv {
 							foundLeader = true
 						}
+						// (the caller may have been stalled before the call's critical section: what
+						// counts is whether that section ended a claim)
+						for _, c := range d.h.Claims {
+							if c.Edge && !c.Val && c.Inst == op.Inst && c.Gen == op.Gen && c.Step >= a.SInv && c.Step <= op.SInvoke && stopStack(c.Stack) {
+								foundLeader = true
+							}
+						}
 					}
 				}
 				if calls > 0 && !foundLeader {
